@@ -174,7 +174,16 @@ class CFG:
         c = self.blocks[b].get('cond')
         if c is None or c < 0:
             return None
-        return self.func.nodes.get(c)
+        n = self.func.nodes.get(c)
+        # clang reports the whole `a && b` for if/for/while terminators; the branch of this
+        # block depends on the operand evaluated last, i.e. the right-most one
+        while n is not None:
+            m = unwrap(n)
+            if m is not None and m['k'] == 'bin' and m['op'] in ('&&', '||'):
+                n = m['y']
+            else:
+                break
+        return n
 
     def reachable(self):
         seen = {self.entry}
